@@ -124,11 +124,36 @@ def grep_forbidden():
                 bad.append("%s:%d: outside a Section: %s" % (os.path.relpath(f, ROOT), n, line.strip()))
     return bad
 
+def rs2v(kernel=None):
+    """Tie 1: regenerate coq/gen from /repo's current source.  Returns (ok, log) for the named kernel
+    (check_excess_parentheses | exit_ops | option_tables), or for all of them when none is named: a kernel that leaves
+    the translator's subset must only fail the checks that are built on it."""
+    with Lock("cargo-rs2v"):
+        lock = os.path.join(ROOT, "rs2v", "Cargo.lock")
+        if not os.path.exists(lock):
+            import shutil; shutil.copy(os.path.join(REPO, "Cargo.lock"), lock)
+        sh(["cargo", "build", "--release", "--offline", "--target-dir", os.path.join(CACHE, "target-rs2v")], cwd=os.path.join(ROOT, "rs2v"), timeout=1500)
+    with Lock("coq"):
+        r = sh([os.path.join(CACHE, "target-rs2v", "release", "rs2v"), REPO, os.path.join(COQ, "gen")], check=False)
+    if kernel is None:
+        return r.returncode == 0, r.stdout
+    for l in r.stdout.splitlines():
+        w = l.split(" ", 2)
+        if len(w) >= 2 and w[1] == kernel:
+            return w[0] == "TRANSLATED", l
+    return False, "rs2v did not report on %s: %s" % (kernel, r.stdout[-500:])
+
 def coq_make(targets, timeout=1500):
     """Full .vo build (never -vos) of the given targets through the generated Makefile."""
+    missing = [g for g in ("CheckExcess.v", "ExitOps.v", "OptionTables.v") if not os.path.exists(os.path.join(COQ, "gen", g))]
+    if missing:
+        os.makedirs(os.path.join(COQ, "gen"), exist_ok=True)
+        rs2v()
+        for g in missing:
+            if not os.path.exists(os.path.join(COQ, "gen", g)):
+                return False, "rs2v could not regenerate coq/gen/%s from /repo's source" % g
     with Lock("coq"):
         os.makedirs(MLDIR, exist_ok=True)
-        os.makedirs(os.path.join(COQ, "gen"), exist_ok=True)
         mk = os.path.join(COQ, "Makefile")
         cp = os.path.join(COQ, "_CoqProject")
         if not os.path.exists(mk) or os.path.getmtime(mk) < os.path.getmtime(cp):
